@@ -19,6 +19,10 @@ use std::time::Duration;
 
 pub const POLL: u8 = 0;
 pub const REMOVE: u8 = 1;
+/// Op(REMOVE_AT, arm, (k << 16) | delay ns): remove the arm a few schedule points after it has
+/// finished its k-th top half, i.e. while it goes through EventSender::send
+pub const REMOVE_AT: u8 = 2;
+const ARM_KEY: usize = 0x41524d;
 pub const A_IMM: u8 = 0;
 pub const A_RECV: u8 = 1;
 pub const A_SLEEP: u8 = 2;
@@ -34,6 +38,7 @@ pub fn opname(op: u8) -> &'static str {
     match op {
         POLL => "poll",
         REMOVE => "remove",
+        REMOVE_AT => "remove(aimed)",
         FEED => "feed",
         POLLER => "poller",
         _ => "?",
@@ -51,6 +56,7 @@ struct End_(Arc<Vec<ArmState>>, usize);
 impl Drop for End_ {
     fn drop(&mut self) {
         self.0[self.1].ended.store(1, Ordering::SeqCst);
+        sched::notify(ARM_KEY);
     }
 }
 struct Running<'a>(&'a AtomicUsize);
@@ -147,6 +153,7 @@ pub fn run(case: &Case) -> Outcome {
                                 panic!("mv-expected-panic-arm-{i}");
                             }
                             st3[i].top.fetch_add(1, Ordering::SeqCst);
+                            sched::notify(ARM_KEY);
                         }
                         es.send(e);
                         // ---- bottom half ----
@@ -164,7 +171,22 @@ pub fn run(case: &Case) -> Outcome {
             }
             for (k, op) in pops.iter().enumerate() {
                 states2.enter(0, k, op.0);
-                if op.0 == REMOVE {
+                if op.0 == REMOVE || op.0 == REMOVE_AT {
+                    if op.0 == REMOVE_AT && (op.1 as usize) < n {
+                        let (arm, k, d) = (op.1 as usize, (op.2 >> 16) as usize, (op.2 & 0xffff) as u64);
+                        let reached = || st2[arm].top.load(Ordering::SeqCst) >= k || st2[arm].ended.load(Ordering::SeqCst) != 0;
+                        if may::coroutine::is_coroutine() {
+                            poll_until(reached, 5_000_000_000);
+                        } else {
+                            let give_up = sched::now_ns() + 5_000_000_000;
+                            while !reached() && sched::now_ns() < give_up {
+                                sched::block(ARM_KEY, Some(give_up), false);
+                            }
+                        }
+                        if d > 0 {
+                            sleep_ns(d);
+                        }
+                    }
                     if let Some(s) = selectors.get_mut(op.1 as usize).and_then(|s| s.take()) {
                         s.remove();
                     }
@@ -391,7 +413,7 @@ pub fn strategy(g: &GenCfg) -> BoxedStrategy<Case> {
     // ---- cqueue API ----
     let arm = (prop_oneof![2 => Just(A_IMM), 3 => Just(A_RECV), 2 => Just(A_SLEEP), 2 => Just(A_SEM)], 1u32..=3, prop_oneof![8 => Just(0u32), 1 => Just(1u32), 1 => Just(2u32)], d(), proptest::collection::vec((0u8..2, d()), 0..=3), 0u8..2);
     let g3 = g2.clone();
-    let api = (0u8..2, proptest::collection::vec(arm, 1..=4), proptest::collection::vec(prop_oneof![6 => prop_oneof![2 => Just(0u32), 1 => 1u32..2_000_000, 1 => Just(1_000_000u32)].prop_map(|t| Op(POLL, t, 0)), 1 => (0u32..4).prop_map(|a| Op(REMOVE, a, 0))], 1..=6), gen::config(&g3), gen::schedule(&g3, false))
+    let api = (0u8..2, proptest::collection::vec(arm, 1..=4), proptest::collection::vec(prop_oneof![6 => prop_oneof![2 => Just(0u32), 1 => 1u32..2_000_000, 1 => Just(1_000_000u32)].prop_map(|t| Op(POLL, t, 0)), 1 => (0u32..4).prop_map(|a| Op(REMOVE, a, 0)), 1 => (0u32..4, 1u32..=3, 0u32..1_500).prop_map(|(a, k, d)| Op(REMOVE_AT, a, (k << 16) | d))], 1..=6), gen::config(&g3), gen::schedule(&g3, false))
         .prop_map(|(pctx, arms, mut polls, (workers, pool, feat), sched)| {
             let n = arms.len();
             // an untimed poll can only be issued while events or the end of all arms are still
@@ -399,6 +421,10 @@ pub fn strategy(g: &GenCfg) -> BoxedStrategy<Case> {
             let mut actors = vec![];
             let mut certain_events = 0usize;
             let mut arm_actors = vec![];
+            // an arm that needs no feeds and panics in its last top half ends every untimed poll
+            // sooner or later: with its events or with the panic that poll has to re-raise
+            // (its Done event must wake a parked poller although other arms stay pending)
+            let panic_arm = arms.iter().any(|a| a.2 == 1 && matches!(a.0, A_IMM | A_SLEEP));
             for (kind, events, panic_at, arg, feeds, _c) in arms {
                 let supplied = match kind {
                     A_RECV | A_SEM => feeds.len().min(events as usize),
@@ -413,7 +439,7 @@ pub fn strategy(g: &GenCfg) -> BoxedStrategy<Case> {
                 }
             }
             // untimed polls only as long as events are certain to come; the others get a time-out
-            let mut budget = certain_events;
+            let mut budget = if panic_arm { usize::MAX / 2 } else { certain_events };
             for p in polls.iter_mut() {
                 if p.0 == POLL {
                     if p.1 == 0 {
